@@ -2,10 +2,10 @@ ID = "C12"
 LEVEL = "model_checking"
 MIRSYM = "C12"
 BOUNDS = ("WS client: pending batch of n in {1,2,3} over ids start..start+n with start ANY u64, answered by k in 0..4 responses whose ids are ANY u64 "
-          "(duplicates, foreign ids, omissions, any order); HTTP client: slot arithmetic for all u64 ids, result sizing for all reply lengths <= 3; async client front end: 2..3 (quick) / 1..4 (thorough) delivered entries, each success/error, decodable or not; the id manager for any counter value and batch length")
+          "(duplicates, foreign ids, omissions, any order); HTTP client: slot arithmetic for all u64 ids, result sizing for all reply lengths <= 3; async client front end: 2..3 (quick) / 1..4 (thorough) delivered entries, each success/error, decodable or not; the id manager for any counter value and batch length; reply ranges not equal to the batch's; success / failure counts vs entries (HTTP client and async front end)")
 EXPLANATION = ("Symbolic execution of the rustc MIR of process_batch_response (and the request-table code it calls) with the reply ids as 64-bit symbols: "
                "z3 decides that a completed batch always has exactly n entries and entry i is the reply with id start+i or the placeholder; "
-               "the HTTP client's batch_request coroutine is executed from its post-await state with symbolic reply ids; the async client front end must hand on the delivered entries in the order delivered. A batch's ids are reserved: a short reply can never be taken for the reply to another batch in flight.")
+               "the HTTP client's batch_request coroutine is executed from its post-await state with symbolic reply ids; the async client front end must hand on the delivered entries in the order delivered. A batch's ids are reserved: a short reply can never be taken for the reply to another batch in flight. Counts describe the entries handed back; a reply whose id range is not the batch's finds no batch.")
 TRUSTED = ["rustc MIR dump", "z3 / cvc5", "Vec / Range / HashMap / oneshot contracts listed under coverage.models"]
 OUTSIDE = ["HTTP transport and JSON parsing of the reply (serde_json)", "interleaving of several batches in flight (id allocation: C03)"]
 ASSUMPTIONS = ["generate_batch_id_range has refused ranges that overflow u64 (checked as its own kernel obligation)"]
